@@ -105,33 +105,36 @@ def onesItem (dt : DType) : Option Bytes :=
 
 /-- `np.ones_like(v_threshold) * w_in`, on the part of numpy's promotion table that the
 correspondence generators exercise; everything else is `unmodelled`. -/
+def materialiseWInShape (dt : DType) (sh : List Nat) (w : Val) : Except PyErr Val :=
+  let wrap (outShape : List Nat) (data : Bytes) : Val :=
+    if outShape.isEmpty then .npscalar dt data else .arr dt outShape data
+  match w with
+  | .float bits =>
+    if dt == DType.float64 then
+      .ok (wrap sh (List.replicate (natProd sh) bits).flatten)
+    else if bits == [0, 0, 0, 0, 0, 0, 0xf0, 0x3f] then
+      match onesItem dt with
+      | some one => .ok (wrap sh (List.replicate (natProd sh) one).flatten)
+      | Option.none => .error unmodelled
+    else .error unmodelled
+  | .arr wdt wsh wdata =>
+    if wdt == dt && dt.kind == .float then
+      match broadcastShapes sh wsh with
+      | some out =>
+        let pad := List.replicate (out.length - wsh.length) 1 ++ wsh
+        .ok (wrap out (broadcastData dt.size pad out wdata))
+      | Option.none => .error .valueError
+    else .error unmodelled
+  | .npscalar wdt wdata =>
+    if wdt == dt && dt.kind == .float then
+      .ok (wrap sh (List.replicate (natProd sh) wdata).flatten)
+    else .error unmodelled
+  | _ => .error unmodelled
+
 def materialiseWIn (vthr w : Val) : Except PyErr Val :=
   match vthr with
-  | .arr dt sh _ =>
-    let wrap (outShape : List Nat) (data : Bytes) : Val :=
-      if outShape.isEmpty then .npscalar dt data else .arr dt outShape data
-    match w with
-    | .float bits =>
-      if dt == DType.float64 then
-        .ok (wrap sh (List.replicate (natProd sh) bits).flatten)
-      else if bits == [0, 0, 0, 0, 0, 0, 0xf0, 0x3f] then
-        match onesItem dt with
-        | some one => .ok (wrap sh (List.replicate (natProd sh) one).flatten)
-        | Option.none => .error unmodelled
-      else .error unmodelled
-    | .arr wdt wsh wdata =>
-      if wdt == dt && dt.kind == .float then
-        match broadcastShapes sh wsh with
-        | some out =>
-          let pad := List.replicate (out.length - wsh.length) 1 ++ wsh
-          .ok (wrap out (broadcastData dt.size pad out wdata))
-        | Option.none => .error .valueError
-      else .error unmodelled
-    | .npscalar wdt wdata =>
-      if wdt == dt && dt.kind == .float then
-        .ok (wrap sh (List.replicate (natProd sh) wdata).flatten)
-      else .error unmodelled
-    | _ => .error unmodelled
+  | .arr dt sh _ => materialiseWInShape dt sh w
+  | .npscalar dt _ => materialiseWInShape dt [] w      -- a rank-0 parameter read back from a file
   | _ => .error unmodelled
 
 /-- `parse_shape_argument(x, key)`; returns the dict (or `none` when the function falls
